@@ -83,6 +83,30 @@ def run(ck):
             ck.ob("DEFUSE", f.path, "release-own-root", has_call_origin(o, r"Iterator::get_root$") and ("arg", 2) in o, "the released lock is the iterator's own root", f.loc(bi))
             ck.ob("RET", f.path, "reports-release", has_call_origin(f.origins(0), r"PrefixesMap::delete$"), "returns whether a lock was released", f.loc(bi))
 
+    # releasing a lock frees only lock-trie nodes that hold no lock themselves
+    f = getfn(ck, "sc", E, LL + "PrefixesMap::delete")
+    if f:
+        rem = f.calls(r"slab::Slab::<T>::remove$")
+        ck.ob("DOM", f.path, "sites:node-removal", len(rem) >= 2, "%d lock-trie node removals" % len(rem), f.loc(), nontrivial=False)
+        tests = []
+        for (sb, st) in f.switches():
+            o = f.origins(st["d"])
+            if has_call_origin(o, r"Option::<T>::is_some$") and ("field", "value") in f.origins(st["d"], deep=True):
+                false_t = [tb for v, tb in st["t"] if v == "0"]
+                if false_t:
+                    tests.append((sb, st["o"], false_t[0]))
+        clears = [bi for bi in f.reachable() for s2 in f.stmts(bi) if "lhs" in s2 and any(p.endswith(":value") for p in s2["lhs"][1])
+                  and ((s2["rv"]["k"] == "agg" and s2["rv"].get("variant") == "None") or any(a[0] == "agg" and a[1].endswith("Option::None") for a in f.origins(s2["rv"].get("a", {}) if s2["rv"]["k"] == "use" else 0)))]
+        for n, (bi, t) in enumerate(rem):
+            by_clear = any(f.dominates(cb, bi) for cb in clears) and not any(f.dominates(cb, sb) and f.dominates(sb, bi) and False for cb in clears for (sb, _, _) in tests)
+            by_test = any(f.dominates(sb, bi) and bi not in f.reach_from([tt], avoid={sb}) for (sb, tt, ft) in tests)
+            # the removal inside the back-up loop must be guarded by a value test of the node being removed
+            in_loop = bi in f.reach_from(f.succ(bi))
+            ok = by_test if in_loop else (by_clear or by_test)
+            ck.ob("DOM", f.path, "removal-only-of-unlocked-node#%d" % n, ok,
+                  "a lock-trie node is freed only %s" % ("on the branch where it holds no lock (value.is_some() is false)" if by_test else "after its own lock was cleared") if ok else
+                  "node removal is not guarded by a test that the node holds no lock: deleting one iterator can release another iterator's lock", f.loc(bi))
+
     # stale handles
     IS = E + "::v1::types::InstanceState::<'a, BackingStore>::"
     handle_methods = []
